@@ -468,10 +468,19 @@ def main_check(mod):
                 mi.append("BADINPUT %s" % (repr(e)[:200]))
         return mi, run_cases(MODEL_BIN, mi)
 
-    def run_mon(mi, obs):
+    py_monitor = getattr(mod, "py_monitor", None)
+
+    def run_mon(mi, obs, ls=None, raws=None):
         if not okm:
             return ["NOMODEL"] * len(mi)
-        return run_monitor(pid, mi, obs, MODEL_BIN)
+        ms = run_monitor(pid, mi, obs, MODEL_BIN)
+        if py_monitor and ls is not None:
+            # clauses on measurements the model driver does not see (e.g. allocation sizes)
+            for i in range(len(ms)):
+                v = py_monitor(ls[i], raws[i], obs[i])
+                if v and v.startswith("FAIL") and not ms[i].startswith("FAIL"):
+                    ms[i] = v
+        return ms
 
     if args.replay:
         rp = json.load(open(args.replay))
@@ -486,7 +495,7 @@ def main_check(mod):
     t1 = time.time()
     raws, impl = run_impl(lines)
     minputs, model = run_model(lines, raws)
-    mon = run_mon(minputs, impl)
+    mon = run_mon(minputs, impl, lines, raws)
     t_run = time.time() - t1
 
     disagreements = [i for i in range(len(lines)) if impl[i] != model[i] and impl[i] != "SKIP"]
@@ -535,7 +544,7 @@ def main_check(mod):
     def one(l):
         rw, ob = run_impl([l])
         mi, mo = run_model([l], rw)
-        mn = run_mon(mi, ob)
+        mn = run_mon(mi, ob, [l], rw)
         return rw[0], ob[0], mi[0], mo[0], mn[0]
 
     exit_code = 0
@@ -567,7 +576,7 @@ def main_check(mod):
             xl = [c.line for c in extra]
             xraw, xr = run_impl(xl)
             xmi, _ = run_model(xl, xraw)
-            xm = run_mon(xmi, xr) if okm else []
+            xm = run_mon(xmi, xr, xl, xraw) if okm else []
             for j in range(len(xm)):
                 if xm[j].startswith("FAIL") and xr[j] != "SKIP":
                     cls = mod.known_class(xl[j], xr[j], xm[j]) if hasattr(mod, "known_class") else None
